@@ -439,8 +439,10 @@ def _data_parse_csv(args, unused_options):
             return None
         lines.extend(arg.splitlines())
 
-    # Parse the CSV
+    # Parse the CSV - cells beyond the header have no field name (csv.DictReader stores them under the key None)
     data = list(csv.DictReader(lines, skipinitialspace=True))
+    for row in data:
+        row.pop(None, None)
 
     # Validate the data (as CSV)
     validate_data(data, True)
